@@ -207,6 +207,7 @@ func (c *Ctx) resolveAliases() []string {
 	}
 	match(af.Loose, loose, "signature")
 	notes = append(notes, c.structuralAliases()...)
+	notes = append(notes, c.lexMethodAliases()...)
 	return notes
 }
 
